@@ -768,7 +768,7 @@ class Circuit(Unitary, StateVectorMap, Collection[Operation]):
 
         location = CircuitLocation(location)
 
-        if max(location) > self.num_qudits:
+        if max(location) >= self.num_qudits:
             raise ValueError('Location has an out-of-range qudit index.')
 
         for qudit_index in location:
@@ -807,7 +807,7 @@ class Circuit(Unitary, StateVectorMap, Collection[Operation]):
 
         location = CircuitLocation(location)
 
-        if max(location) > self.num_qudits:
+        if max(location) >= self.num_qudits:
             raise ValueError('Location has an out-of-range qudit index.')
 
         # No available cycle
